@@ -290,6 +290,8 @@ def r7(chk, ctx):
 
 
 def run(chk, ctx):
+    from . import generic
+    generic.definite_assignment(chk, ctx, ['event_dispatcher'], "C03.DA")   # no local is read before it is bound (UnboundLocalError = an arbitrary exception)
     p = ctx.protocol()
     # C03.R1b (a second acknowledge of the handler's own id) is reported by the protocol but is NOT a violation: EventDispatcher.acknowledge
     # looks the id up in unacknowledged_messages and swallows the KeyError, so a repeated acknowledge through the id table is a no-op (DESIGN 8.5 FA-11)
@@ -313,6 +315,7 @@ def run(chk, ctx):
     from . import round4, c08
     round4.orphan_entry_timer_paired(chk, ctx)
     round4.failed_fanout_torn_down(chk, ctx)     # held events of a caught fan-out failure are never acknowledged
+    round4.gate_index_default(chk, ctx)          # join state that is never released
     c08.r4(chk, ctx)                         # 'no timer left behind': every completion path disarms the request's timer
     round3.timer_cleared_only_on_completion(chk, ctx)
     chk.assume("the broker redelivers unacknowledged messages (trusted)")
